@@ -134,7 +134,12 @@ func c09Changes() map[string]*model.Change {
 		// P1 generates nested calls (all generated tokens carry the position of the replaced site); P2 matches both levels
 		"P1": {Name: "P1", Kind: "expr", Meta: xm, Lines: model.L("-old(x)", "+nest(nest(x))")},
 		"P2": {Name: "P2", Kind: "expr", Lines: model.L("-nest(DOTS_1)", "+done(DOTS_1)")},
-		"N": {Name: "N", Kind: "expr", Meta: xm, Imports: []model.Import{{Tag: "+", Path: "new/q"}}, Lines: model.L("-b1(x)", "+q.B1(x)")},
+		// L1, L2: an import replaced by one whose path is long enough to reach past the comment that follows
+		// it, and replaced again; L3 renames the function below, which carries a directive (or a doc comment)
+		"L1": {Name: "L1", Kind: "expr", Meta: xm, Imports: []model.Import{{Tag: "-", Path: "aaa"}, {Tag: "+", Name: "bbb", Path: "example.com/some/quite/long/path/bbb"}}, Lines: model.L("-aaa.F(x)", "+bbb.F(x)")},
+		"L2": {Name: "L2", Kind: "expr", Meta: xm, Imports: []model.Import{{Tag: "-", Name: "bbb", Path: "example.com/some/quite/long/path/bbb"}, {Tag: "+", Path: "ddd"}}, Lines: model.L("-bbb.F(x)", "+ddd.F(x)")},
+		"L3": {Name: "L3", Kind: "expr", Lines: model.L("-fdir", "+gdir")},
+		"N":  {Name: "N", Kind: "expr", Meta: xm, Imports: []model.Import{{Tag: "+", Path: "new/q"}}, Lines: model.L("-b1(x)", "+q.B1(x)")},
 	}
 }
 
@@ -165,6 +170,32 @@ func c09Gen(tier string, emit func(any)) {
 	for _, n := range sizes {
 		for _, p := range []string{"one", "stdin", "api"} {
 			emit(&C09Case{Big: n, Packaging: p})
+		}
+	}
+	// comment groups emptied by one change and still referenced by the next
+	for _, s := range seqs([]string{"L1", "L2", "L3", "A"}, 3) {
+		if len(s) < 2 {
+			continue
+		}
+		for _, f := range [][2]string{
+			{"directive", "package p\n\nimport \"aaa\"\n\n//go:noinline\nfunc fdir() {\n\taaa.F(a1(1))\n}\n"},
+			{"doc", "package p\n\nimport \"aaa\"\n\n// fdir does things.\nfunc fdir() {\n\taaa.F(1)\n}\n\n// V is a variable.\nvar V = aaa.F(2)\n"},
+			{"field-doc", "package p\n\nimport \"aaa\"\n\ntype T struct {\n\t// fdir is a field.\n\tfdir int // trailing\n}\n\nvar V = aaa.F(2)\n"},
+		} {
+			for _, p := range []string{"one", "multi-p", "api"} {
+				emit(&C09Case{Seq: s, FileID: f[0], File: f[1], Packaging: p})
+			}
+		}
+	}
+	// -P before -p, and two -P options: pairs and triples over the first changes, on two files
+	for _, s := range seqs([]string{"A", "B", "C", "D"}, 3) {
+		if len(s) < 2 {
+			continue
+		}
+		for _, f := range c09Files[:2] {
+			for _, p := range []string{"P-then-p", "two-P"} {
+				emit(&C09Case{Seq: s, FileID: f[0], File: f[1], Packaging: p})
+			}
 		}
 	}
 	packagings := []string{"one", "multi-p", "P-list", "stdin", "mixed", "api", "P-list-odd", "one-fifo", "P-fifo"}
@@ -369,6 +400,19 @@ func c09Run(env *core.Env, ci any) core.Outcome {
 			sb.noShadow = true
 		case "stdin":
 			stdin = all
+		case "P-then-p": // the list first, then a -p patch: the given order is list, patch
+			if err := writeFile(sb.path("list.txt"), list(c.Seq[:len(c.Seq)-1])); err != nil {
+				panic(err)
+			}
+			args = []string{"-P", sb.path("list.txt"), "-p", sb.path(pathOf(c.Seq[len(c.Seq)-1]))}
+		case "two-P": // two lists
+			if err := writeFile(sb.path("list.txt"), list(c.Seq[:1])); err != nil {
+				panic(err)
+			}
+			if err := writeFile(sb.path("list2.txt"), list(c.Seq[1:])); err != nil {
+				panic(err)
+			}
+			args = []string{"-P", sb.path("list.txt"), "-P", sb.path("list2.txt")}
 		case "mixed":
 			if err := writeFile(sb.path("list.txt"), "\n"+list(c.Seq[1:])+"\n"); err != nil {
 				panic(err)
@@ -395,6 +439,11 @@ func c09Run(env *core.Env, ci any) core.Outcome {
 		b, err2 := canon.Source([]byte(cur), canon.Options{SortImports: true})
 		if err1 != nil || err2 != nil {
 			return bad("unparseable", "unparseable result: combined %v chain %v", err1, err2)
+		}
+		if a != b && (c.Packaging == "P-then-p" || c.Packaging == "two-P") {
+			o := bad("order", "combined run differs from the chain of single-change runs\ncombined:\n%s\nchain:\n%s", combinedOut, cur)
+			o.FindingKey = "C09:" + map[string]string{"P-then-p": "patches-file-given-before-p-runs-after-it", "two-P": "second-patches-file-replaces-the-first"}[c.Packaging]
+			return o
 		}
 		if a != b {
 			return bad("result-differs", "combined run differs from the chain of single-change runs\ncombined:\n%s\nchain:\n%s", combinedOut, cur)
